@@ -861,7 +861,13 @@ class Builder(object):
                     init.update(data)
 
                 elif connective == 'for':
-                    srcFields, index = self.parseFields(tokens, index)
+                    end = index  # field list ends at rx tx which are not reserved or at in order clause
+                    while end < len(tokens) and tokens[end] not in ('rx', 'tx'):
+                        if (tokens[end] == 'in' and end + 1 < len(tokens) and
+                                tokens[end + 1] in ('front', 'mid', 'back')):
+                            break
+                        end += 1
+                    srcFields, index = self.parseFields(tokens[:end], index)
                     srcPath, index = self.parsePath(tokens, index)
                     if self.currentStore.fetchShare(srcPath) is None:
                         console.terse("     Warning: Init 'with' non-existent share {0}"
